@@ -8,6 +8,9 @@ func verifYield(string)                      {}
 func verifBeforeWLock(*sync.RWMutex, string) {}
 func verifBeforeRLock(*sync.RWMutex, string) {}
 func verifBeforeMLock(*sync.Mutex, string)   {}
+func verifMutating(*sync.RWMutex, string)    {}
+func verifReading(*sync.RWMutex, string)     {}
+func verifMutatingM(*sync.Mutex, string)     {}
 
 // VerifYieldPoint is a no-op unless built with the "verif" tag.
 func VerifYieldPoint(string) {}
